@@ -9,7 +9,7 @@
          let q = @y   if some q { attr (q.n) t = #true }   print @y.n }
    `@y.n` is defined by the first stanza (three matches); `@s.owner.n` is a scoped read whose scope is a scoped read;
    `q` is the only variable declared pure (it is used in the condition of `if`). *)
-From TSG Require Import Model.Run Model.Stdlib Proofs.K7 Proofs.SLExpr Proofs.StrictLazy Proofs.SL2Expr Proofs.SL2Stmt Proofs.SL2Whole.
+From TSG Require Import Model.Run Model.Stdlib Proofs.BaseFacts Proofs.K7 Proofs.SLExpr Proofs.StrictLazy Proofs.SL2Force Proofs.SL2Expr Proofs.SL2Stmt Proofs.SL2Whole.
 Open Scope N_scope.
 
 Definition e0 : loc := (0, 0).
@@ -65,3 +65,77 @@ Proof. vm_compute. reflexivity. Qed.
 Lemma ex2_lazy_ok :
   lgraph_of (run_lazy k7_tree ex2_file config0 [[]] None ([] : list regex) rx_captures (the_call k7_tree []) default_fuel (lmatches_of ex2_matches) []) = Ok ex2_graph.
 Proof. vm_compute. reflexivity. Qed.
+
+(* ---- an inherited name:  inherit .scope
+       (module) @m                 { node @m.scope }
+       (identifier) @x             { node @x.ref   edge @x.ref -> @x.scope   attr (@x.ref) s = @x.scope }
+   `scope` is defined on the root only; the identifiers (grandchildren of the root) read it through inheritance.
+   The final strict store defines `scope` on node 0 only, so no definer has a defining proper ancestor. *)
+Definition nm_scope : ident := [115;99;111;112;101].
+Definition nm_ref : ident := [114;101;102].
+Definition ex3_file : file :=
+  {| f_globals := []; f_inherited := [nm_scope]; f_shorthands := [];
+     f_stanzas := [
+       {| st_stmts := [ SNode (VarS capx nm_scope e0) [115] e0 ];
+          st_full_stanza_idx := 1; st_full_file_idx := 1; st_start := e0 |};
+       {| st_stmts := [
+            SNode (VarS capx nm_ref e0) [114] e0;
+            SEdge (EScoped capx nm_ref e0) (EScoped capx nm_scope e0) e0;
+            SAttrNode (EScoped capx nm_ref e0) [Attr [115] (EScoped capx nm_scope e0)] e0 ];
+          st_full_stanza_idx := 1; st_full_file_idx := 1; st_start := e0 |} ] |}.
+Definition ex3_matches : list (list qmatch) :=
+  [ [ [(0, [0]); (1, [0])] ];
+    [ [(0, [2]); (1, [2])]; [(0, [4]); (1, [4])]; [(0, [6]); (1, [6])] ] ].
+Definition ex3_purev (x : ident) : bool := false.
+
+Lemma ex3_file_ok : file_ok2 ex2_okfn ex3_purev ex3_file (f_stanzas ex3_file) ex3_matches.
+Proof.
+  cbn [file_ok2 ex3_file f_stanzas ex3_matches]. repeat split; repeat constructor; unfold match_ok2; cbn;
+    repeat split; try reflexivity; try discriminate; try (intros; discriminate); constructor.
+Qed.
+
+Definition ex3_graph : graph :=
+  [ {| g_attrs := []; g_edges := [] |};
+    {| g_attrs := [([115], VGraph 0)]; g_edges := [(0, [])] |};
+    {| g_attrs := [([115], VGraph 0)]; g_edges := [(0, [])] |};
+    {| g_attrs := [([115], VGraph 0)]; g_edges := [(0, [])] |} ].
+
+Lemma ex3_strict_ok : exists s p,
+  run_strict k7_tree ex3_file config0 [[]] None ([] : list regex) rx_captures (the_call k7_tree []) default_fuel ex3_matches [] = Ok (s, p) /\
+  inh_antichain k7_tree ex3_file (s_scoped s) /\ s_graph s = ex3_graph.
+Proof.
+  eexists. eexists. split; [vm_compute; reflexivity|]. split; [|reflexivity].
+  intros name n a Hi Ha Hn _. cbn [s_scoped] in Hn. unfold scoped_lookup in Hn. cbn [scopes_get] in Hn.
+  destruct (N.eqb_spec n 0) as [->|Hne]; [vm_compute in Ha; destruct Ha|]. cbn [scopes_get] in Hn.
+  destruct (N.eqb_spec n 2), (N.eqb_spec n 4), (N.eqb_spec n 6); subst; try (apply Hn; reflexivity).
+  all: cbn [alist_get] in Hn; unfold inherited in Hi; cbn [ex3_file f_inherited existsb] in Hi; rewrite Bool.orb_false_r in Hi; apply str_eqb_eq in Hi; subst name; vm_compute in Hn; apply Hn; reflexivity.
+Qed.
+Lemma ex3_lazy_ok :
+  lgraph_of (run_lazy k7_tree ex3_file config0 [[]] None ([] : list regex) rx_captures (the_call k7_tree []) default_fuel (lmatches_of ex3_matches) []) = Ok ex3_graph.
+Proof. vm_compute. reflexivity. Qed.
+
+(* ---- why the scope expression of a definition must be DEEPLY pure (condition (c) of the fragment): a variant of K7
+   whose cycle goes through local variables; every definition scope is syntactically free of scoped reads (a capture
+   or a local variable), strict execution succeeds, lazy execution fails (model only; K7 itself is replayed on the
+   implementation):
+       node n   let @x.a = @y   let t = @x.a   let t.b = @z   let u = t.b   let u.a = 5   attr (n) r = u.a
+   forcing `u.a` forces the thunk of `u`, which forces the cell of `b`, whose scope `t` forces the cell of `a`, whose
+   second definition has scope `u`: the thunk of `u` is being forced. *)
+Definition k7b_cx := ECapture [120] QOne 0 0 e0.
+Definition k7b_file : file := {| f_globals := []; f_inherited := []; f_shorthands := []; f_stanzas := [{| st_stmts := [
+  SNode (VarU [110] e0) [110] e0;
+  SLet (VarS k7b_cx [97] e0) (ECapture [121] QOne 1 1 e0) e0;
+  SLet (VarU [116] e0) (EScoped k7b_cx [97] e0) e0;
+  SLet (VarS (EUnscoped [116] e0) [98] e0) (ECapture [122] QOne 2 2 e0) e0;
+  SLet (VarU [117] e0) (EScoped (EUnscoped [116] e0) [98] e0) e0;
+  SLet (VarS (EUnscoped [117] e0) [97] e0) (EInt 5) e0;
+  SAttrNode (EUnscoped [110] e0) [Attr [114] (EScoped (EUnscoped [117] e0) [97] e0)] e0 ];
+  st_full_stanza_idx := 4; st_full_file_idx := 4; st_start := e0 |}] |}.
+Lemma k7b_strict_ok :
+  graph_of (run_strict k7_tree k7b_file config0 [[]] None [] rx_captures (the_call k7_tree []) default_fuel k7_smatches [])
+  = Ok [{| g_attrs := [([114], VInt 5)]; g_edges := [] |}].
+Proof. vm_compute. reflexivity. Qed.
+Lemma k7b_lazy_fails :
+  exists e, run_lazy k7_tree k7b_file config0 [[]] None [] rx_captures (the_call k7_tree []) default_fuel k7_lmatches [] = Err e /\
+            root_cause e = ERecursivelyDefinedVariable.
+Proof. eexists. split; [vm_compute; reflexivity|reflexivity]. Qed.
